@@ -67,12 +67,13 @@ SCENARIOS3 = [
 QUICK_BOUND2 = ('slice-both-stale', 'slice-one-stale', 'getattr-both-stale', 'filter-slice-stale')
 THOROUGH_BOUND3 = ('slice-both-stale', 'getattr-both-stale')
 THOROUGH_BOUND1 = ('collection-cold',)
+THOROUGH_3T_BOUND2 = ('slice-3-stale',)
 
 def bounds(tier, sc):
     """preemption bound per scenario and tier"""
     name, n = sc['name'], len(sc['threads'])
     if tier == 'quick': return 2 if name in QUICK_BOUND2 else 1
-    if n == 3: return 2 if sc['kind'] == 'stale' else 1
+    if n == 3: return 2 if name in THOROUGH_3T_BOUND2 else 1
     if name in THOROUGH_BOUND3: return 3
     return 1 if name in THOROUGH_BOUND1 else 2
 
